@@ -22,7 +22,53 @@ class Ctx:
         t1 = threading.Thread(target=lambda: res.__setitem__("h", self.harness(lines)))
         t2 = threading.Thread(target=lambda: res.__setitem__("d", self.driver(lines)))
         t1.start(); t2.start(); t1.join(); t2.join()
-        return res["h"], res["d"]
+        # operations the runner gave up on after several operations of their shard never returned (those are answered `hang`
+        # and fail the check): not evaluated — they take the model's answer so that no further finding is invented for them
+        h = list(res["h"])
+        n = 0
+        for i, a in enumerate(h):
+            if a == "unanswered" and i < len(res["d"]):
+                h[i] = res["d"][i]; n += 1
+        if n:
+            self.unanswered = getattr(self, "unanswered", 0) + n
+            C.log(f"{n} operations not run after repeated hangs in their shard")
+        return h, res["d"]
+
+
+def history_check(ctx, out, ops, impl, what):
+    """The answer to an operation must not depend on what the process did before (the codec is a pure function — the Lean model is).
+    The operations are run again in ANOTHER order, chosen so that look-alike inputs sit next to each other in one process (sorted by
+    operation and by the payload without its leading zero bytes, shorter first; then the same backwards), and every answer must be the
+    one of the first run. Catches state that survives a call: caches, memo tables, statics shared by generic instantiations."""
+    def key(i):
+        f = ops[i].split(" ")
+        payload = f[-1] if len(f) > 1 else ""
+        stripped = payload
+        while stripped.startswith("00"):
+            stripped = stripped[2:]
+        return (f[0], stripped, len(payload), " ".join(f[1:-1]))
+    order = sorted(range(len(ops)), key=key)
+    n = 0
+    for perm in (order, order[::-1]):
+        lines = [ops[i] for i in perm]
+        # contiguous shards, so that neighbours in this order really are neighbours in one process
+        k = max(1, min(C.NCPU, len(lines) // 4000 + 1))
+        size = (len(lines) + k - 1) // k
+        parts = [lines[j:j + size] for j in range(0, len(lines), size)]
+        import threading
+        res = [None] * len(parts)
+        th = [threading.Thread(target=lambda j=j: res.__setitem__(j, C.run_lines(C.harness_bin(False), parts[j], shards=1))) for j in range(len(parts))]
+        for t in th: t.start()
+        for t in th: t.join()
+        again = [a for part in res for a in part]
+        for pos, (i, a) in enumerate(zip(perm, again)):
+            if a != impl[i] and a != "unanswered":
+                n += 1
+                if n <= 20:
+                    prev = lines[pos - 1] if pos > 0 else "(first operation of the process)"
+                    out.oracle_failures.append({"op": ops[i][:400], "observed": f"{a[:200]}   (directly after `{prev[:200]}` in the same process)", "expected": impl[i][:200] + "   (the answer in the first run)",
+                                                "key": ops[i][:200], "what": f"{what}: the answer to an operation depends on what the process did before (hidden state across calls)"})
+    out.count("re-run in look-alike order (history independence)", 2 * len(ops))
 
 
 class Outcome:
